@@ -166,6 +166,8 @@ func initProperties() {
 			Decides: "the by-id slot threshold is compared identically at load, lookup and store (THRESHAGREE), PathNode.marshal covers every thrift type and writes headers before elements (KINDEXH, HDRFIRST), child-slice growth is bounded by the input (ALLOCBOUND), Marshal copies out of the pooled buffer (POOLESCAPE).",
 			NotDec:  "losslessness itself, hash-slot reuse across loads, stale entries.",
 			Uses: uses(
+				use("SPARSECLEAR", "a re-used children array starts empty where a sparse store skips or probes slots", thriftGeneric),
+				use("CHILDRESET", "a slot that is not re-scanned loses the children of its previous value", thriftGeneric),
 				use("PROBEWRAP", "hash probing wraps the slot pointer with the slot index", thriftGeneric),
 				use("THRESHAGREE", "slot choice agrees", nil),
 				use("KINDEXH", "marshal covers all types", funcHas("thrift/generic.PathNode")),
@@ -319,6 +321,7 @@ func initProperties() {
 			Decides: "inserted tags carry a real wire type and map entries key=1/value=2 (TAGTYPE, MAPTAG), speculative lengths are finished on every path of PathNode.marshal (SPECLENPAIR), name->number translation is nil-checked (NILLOOKUP), insertion/tag errors propagate (DROPERR), the delete locator has a not-found exit (NOTFOUNDEXIT).",
 			NotDec:  "updateByteLen ancestor-length arithmetic.",
 			Uses: uses(
+				use("CHILDRESET", "a slot that is not re-scanned loses the children of its previous value", protoGeneric),
 				use("INDEXLOWER", "a negative element index is rejected by lookups and editors", protoGeneric),
 				use("DUALEXIT", "index == element count is not-found, not the bytes after the list", protoGeneric),
 				use("KINDNAME", "each kind's clause calls the primitive named after that kind (signedness / width)", nil),
@@ -367,6 +370,8 @@ func initProperties() {
 			Decides: "no function reachable (VTA call graph) from a read-side entry point writes descriptor state (DESCIMMUT), a package-level variable (GLOBALWRITE), the caller's input bytes (INPUTRO) or a converter receiver — hence concurrent read-side calls share only immutable data and sync.Pool objects; pooled buffers are never returned, stored in caller-visible memory or used after Put (POOLESCAPE).",
 			NotDec:  "result equality under interleavings, dirty pooled bitmaps (value-level), user-supplied http getters.",
 			Uses: uses(
+				use("SPARSECLEAR", "a pooled PathNode does not show the previous document's children", nil),
+				use("CHILDRESET", "a pooled PathNode does not show the previous document's children", nil),
 				use("PARAMFORWARD", "an option parameter reaches every call of the callee it is forwarded to (copyString covers keys and values)", nil),
 				use("RANGECOPYWRITE", "reset loops write the elements, not per-iteration copies", nil),
 				use("DESCIMMUT", "descriptors immutable", nil),
